@@ -273,7 +273,7 @@ def lit_text(v: Any, q: str = "'") -> str:
     return repr(v)
 
 
-SHORTHAND_RE = re.compile("^[A-Za-z_\\u0080-\\uffff][A-Za-z0-9_\\u0080-\\uffff]*$")
+SHORTHAND_RE = re.compile("^[A-Za-z_\\u0080-\\ud7ff\\ue000-\\U0010ffff][A-Za-z0-9_\\u0080-\\ud7ff\\ue000-\\U0010ffff]*$")
 RESERVED = {"and", "or", "not", "in", "contains", "true", "false", "null", "nil", "none", "undefined", "missing",
             "True", "False", "Null", "Nil", "None"}
 
